@@ -47,7 +47,7 @@ STRATA = {
     "enum_product_len2": (_nseq(2) * len(WRAPPERS) * len(BEHAVIOURS), 0),
     "enum_product_len3": (0, _nseq(3) * len(WRAPPERS) * len(BEHAVIOURS)),
     "enum_len4_roundrobin": (0, len(ALPHABET) ** 4),
-    "canonical_runs": (len(WRAPPERS) * len(BEHAVIOURS) * 6, len(WRAPPERS) * len(BEHAVIOURS) * 40),
+    "canonical_runs": (len(WRAPPERS) * len(BEHAVIOURS) * 20, len(WRAPPERS) * len(BEHAVIOURS) * 80),
 }
 REQUIRED_ORACLES = ["lifecycle_automaton", "rejected_call_no_side_effect", "resources_released", "clean_up_once", "results_match_tool",
                     "cwd_unchanged_by_call", "launched_in_exec_dir", "command_line_matches_setters"]
@@ -232,6 +232,8 @@ class Case:
         self.pid = None
         self.extra = []            # additional options accepted by the wrapper (setter in CREATED)
         self.stubborn = False
+        self.given_tree = False
+        self.full_matrix = False
 
     # -------------------------------------------------------------- helpers
     def tool_mode(self):
@@ -429,7 +431,8 @@ class Case:
                     ctx.fail("lifecycle_automaton", "join(timeout) on a hanging tool: expected TimeoutError, got %r" % (raised,))
                 ctx.exc(raised)
                 self.state, self.ended = "CANCELLED", "timeout"
-            elif join_fails(self.wrapper, self.beh):
+            elif join_fails(self.wrapper, self.beh) and not (self.beh == "notree" and self.wrapper == "clustalo" and self.given_tree):
+                # (with a guide tree given by the caller, Clustal-Omega is not asked for one and none is read)
                 if raised is None:
                     ctx.fail("results_match_tool", "join succeeded although the tool failed / wrote unusable output (%s)" % self.beh)
                 ctx.exc(raised)
@@ -459,8 +462,48 @@ class Case:
         if real != self.state:
             ctx.fail("lifecycle_automaton", "after %s the wrapper is in state %s, automaton %s" % (op, real, self.state))
 
+    def specific_setter(self):
+        """A CREATED-only setter of the concrete wrapper class (some are called twice: the later call replaces the earlier)."""
+        rng, app, n = self.rng, self.app, len(self.inputs or [])
+        w = self.wrapper
+        if w == "clustalo":
+            which = str(rng.choice(["guide_tree", "guide_tree_twice", "full_matrix", "distance_matrix"]))
+            if which.startswith("guide_tree"):
+                import biotite.sequence.phylo as phylo
+                for _ in range(2 if which.endswith("twice") else 1):
+                    d = rng.uniform(0.1, 1.0, size=(n, n))
+                    d = (d + d.T) / 2
+                    np.fill_diagonal(d, 0)
+                    app.set_guide_tree(phylo.upgma(d))
+                self.given_tree = True
+            elif which == "full_matrix":
+                app.full_matrix_calculation()
+                self.full_matrix = True
+            else:
+                d = rng.uniform(0.1, 1.0, size=(n, n))
+                d = (d + d.T) / 2
+                np.fill_diagonal(d, 0)
+                app.set_distance_matrix(d)
+            self.ctx.op("clustalo_setter_" + which)
+        elif w == "muscle3":
+            app.set_gap_penalty(-float(rng.integers(1, 12)) if rng.random() < 0.5 else (-float(rng.integers(5, 12)), -float(rng.integers(1, 4))))
+            self.ctx.op("muscle3_set_gap_penalty")
+        elif w == "muscle5":
+            which = str(rng.choice(["iterations", "threads", "super5"]))
+            if which == "iterations":
+                app.set_iterations(consistency=int(rng.integers(1, 4)), refinement=int(rng.integers(1, 50)))
+            elif which == "threads":
+                app.set_thread_number(int(rng.integers(1, 4)))
+            else:
+                app.use_super5()
+            self.ctx.op("muscle5_setter_" + which)
+        else:
+            app.add_additional_options([])
+
     def setter(self):
         """One of the CREATED-only setters; set_exec_dir is tracked so that the launch directory can be judged."""
+        if self.wrapper in ("clustalo", "muscle3", "muscle5") and self.rng.random() < 0.35:
+            return self.specific_setter()
         if self.beh != "bad_exec_dir" and self.rng.random() < 0.5:
             d = os.path.join(WORK, "exec-%d" % int(self.rng.integers(3)))
             os.makedirs(d, exist_ok=True)
@@ -523,6 +566,11 @@ class Case:
             exp = ([-1] * (width - L) + list(range(L))) if left else (list(range(L)) + [-1] * (width - L))
             if trace[:, i].tolist() != exp:
                 ctx.fail("results_match_tool", "row %d of the trace %s, tool wrote %s" % (i, trace[:, i].tolist(), exp))
+        if self.wrapper == "clustalo" and self.full_matrix:
+            dm = app.get_distance_matrix()
+            exp = np.array([[0.0 if a == b else 0.1 * (1 + abs(a - b)) for b in range(n)] for a in range(n)])
+            if np.shape(dm) != (n, n) or not np.allclose(dm, exp, atol=1e-5):
+                ctx.fail("results_match_tool", "get_distance_matrix() is not the matrix the tool wrote", got=np.asarray(dm).tolist())
         if hasattr(app, "get_guide_tree") and self.wrapper != "muscle5":
             tree = app.get_guide_tree()
             if tree is not None:
@@ -673,7 +721,10 @@ def input_kind(wrapper, rng):
 
 
 CANONICAL = [("start", "join"), ("start", "cancel"), ("start", "join_timeout"), ("start", "get_app_state", "join"),
-             ("start", "get_app_state", "cancel"), ("start", "join", "get_alignment", "get_alignment_order")]
+             ("start", "get_app_state", "cancel"), ("start", "join", "get_alignment", "get_alignment_order"),
+             # configured runs: one or two setter calls (wrapper specific setters included) before the run
+             ("setter", "start", "join"), ("setter", "setter", "start", "join", "get_alignment"), ("setter", "setter", "start", "cancel"),
+             ("setter", "start", "get_app_state", "get_stdout", "join")]
 
 
 def run_case(stratum, rng, ctx):
